@@ -479,6 +479,12 @@ func (g nasGen) wfVal(mi *nasMsgInfo, i int, big bool) string {
 					len_ = rng.Intn(maxLen + 1)
 				}
 			} else {
+				if sh.n >= 5 && rng.Intn(6) == 0 {
+					// the lengths an S-NSSAI takes (SST+SD, SST+SD+mapped SST) with a slice differentiator of all ones (reserved:
+					// "no SD") or with leading zero octets
+					len_ = g.pick(4, 5)
+					copy(data[1:4], [][]byte{{0xff, 0xff, 0xff}, {0x00, 0x00, 0x01}, {0x00, 0xab, 0x00}}[rng.Intn(3)])
+				}
 				for k := len_; k < sh.n; k++ {
 					data[k] = 0
 				}
